@@ -382,7 +382,8 @@ def large_matching_case(ctx):
                 want = (p[0], p[1], q[0], q[1])
                 hit = [l for l in segs if same_seg(seg_key(l), want)]
                 styles = [(str(l.get_color()), str(l.get_linestyle()), float(l.get_linewidth())) for l in segs]
-                ok = len(hit) >= 1 and any(styles.count((str(l.get_color()), str(l.get_linestyle()), float(l.get_linewidth()))) == 1 for l in hit) and len(set(styles)) == 2
+                ok = len(hit) >= 1 and any(styles.count((str(l.get_color()), str(l.get_linestyle()), float(l.get_linewidth()))) == 1 for l in hit) and len(set(styles)) == 2 \
+                    and all(float(l.get_linewidth()) >= max(st[2] for st in styles) for l in hit)
                 if not ok:
                     ctx.violation("bottleneck-pair-not-marked", "the bottleneck pair (row %d of %d) is not the one distinctly styled segment" % (top, len(m)),
                                   observed={"distinct_styles": len(set(styles))}, extra=ex)
@@ -489,7 +490,8 @@ def matching_case(case, ctx):
             marked = False
             for k in range(len(styles)):
                 others = [st for t, st in enumerate(styles) if t != k]
-                if styles[k] not in others and len(set(others)) == 1 and abs(costs[k] - top) <= 1e-12:
+                # distinct, and not by being drawn LESS prominently than the ordinary pairs (thinner line)
+                if styles[k] not in others and len(set(others)) == 1 and abs(costs[k] - top) <= 1e-12 and styles[k][2] >= max(o[2] for o in others):
                     marked = True
             if not marked:
                 ctx.violation("bottleneck-pair-not-marked", "the bottleneck pair (largest cost) is not the one distinctly styled segment",
